@@ -443,12 +443,23 @@ def constLitOfExpr : Expr → Option CVal
   | .undef _ => some .undefined
   | _ => none
 
+/-- `c.emit(node, OpConstant, c.addConstant(v))` -/
+def emitConstant (pos : Pos) (v : CVal) : CM Unit := do
+  let i ← addConstant v
+  emit_ pos OpConstant [i]
+
+/-- `index := c.addConstant(fn)` followed by CLOSURE index nfree, or CONSTANT index when nothing is captured -/
+def emitFnConstant (pos : Pos) (fn : CFn) (nfree : Nat) : CM Unit := do
+  let idx ← addFnConstant fn
+  if nfree > 0 then emit_ pos OpClosure [idx, nfree]
+  else emit_ pos OpConstant [idx]
+
 def emitConstLit (pos : Pos) (v : CVal) : CM Unit := do
   match v with
   | .bool true => emit_ pos OpTrue
   | .bool false => emit_ pos OpFalse
   | .undefined => emit_ pos OpNull
-  | v => do let i ← addConstant v; emit_ pos OpConstant [i]
+  | v => emitConstant pos v
 
 /-- first component of `resolveAssignLHS` -/
 def lhsName : Expr → String
@@ -683,8 +694,7 @@ def compileIdent (pos : Pos) (name : String) : CM Unit := do
     let s ← get
     if s.iotaVal < 0 || name != "iota" then cerr pos s!"unresolved reference \"{name}\""
     else do
-      let i ← addConstant (.int (BitVec.ofInt 64 s.iotaVal))
-      emit_ pos OpConstant [i]
+      emitConstant pos (.int (BitVec.ofInt 64 s.iotaVal))
   | some sym =>
     match sym.scope with
     | .global => emit_ pos OpGetGlobal [sym.index]
@@ -762,8 +772,7 @@ def compileAssign (pos : Pos) (lhs : List Expr) (nrhs : Nat) (rhsAct lhs0Act def
   else if lhs.length > 1 then do
     let (sym, _) ← defineLocal ":array"
     emit_ pos OpGetBuiltin [Gen.builtinMakeArray]
-    let i ← addConstant (.int (BitVec.ofNat 64 lhs.length))
-    emit_ pos OpConstant [i]
+    emitConstant pos (.int (BitVec.ofNat 64 lhs.length))
     rhsAct
     -- compileDestructuring
     emit_ pos OpCall [2, 0]
@@ -804,12 +813,12 @@ def compileExpr : Expr → CM Unit
       else if tok == tNotEqual then emit_ pos OpNotEqual
       else if !isBinaryOperator tok then cerr pos "invalid binary operator"
       else emit_ pos OpBinaryOp [tok]
-  | .int pos v => do let i ← addConstant (.int v); emit_ pos OpConstant [i]
-  | .uint pos v => do let i ← addConstant (.uint v); emit_ pos OpConstant [i]
-  | .float pos v => do let i ← addConstant (.float v); emit_ pos OpConstant [i]
+  | .int pos v => emitConstant pos (.int v)
+  | .uint pos v => emitConstant pos (.uint v)
+  | .float pos v => emitConstant pos (.float v)
   | .bool pos b => if b then emit_ pos OpTrue else emit_ pos OpFalse
-  | .str pos s => do let i ← addConstant (.str s); emit_ pos OpConstant [i]
-  | .char pos v => do let i ← addConstant (.char v); emit_ pos OpConstant [i]
+  | .str pos s => emitConstant pos (.str s)
+  | .char pos v => emitConstant pos (.char v)
   | .undef pos => emit_ pos OpNull
   | .unary pos tok e => do
     compileExpr e
@@ -840,9 +849,7 @@ def compileExpr : Expr → CM Unit
     emitFreePtrs pos ft.frees
     if fn.numLocals > 256 then throw (.err pos "SymbolLimitError: number of local symbols exceeds the limit")
     else do
-      let idx ← addFnConstant fn
-      if ft.frees.length > 0 then emit_ pos OpClosure [idx, ft.frees.length]
-      else emit_ pos OpConstant [idx]
+      emitFnConstant pos fn ft.frees.length
   | .call pos ellipsis f args =>
     match f with
     | .selector _ se ssel => do
@@ -874,8 +881,7 @@ def compileExprs : List Expr → CM Unit
 def compileMapElems (pos : Pos) : List (String × Expr) → CM Unit
   | [] => pure ()
   | (k, v) :: r => do
-    let i ← addConstant (.str k.toUTF8.toList)
-    emit_ pos OpConstant [i]
+    emitConstant pos (.str k.toUTF8.toList)
     compileExpr v
     compileMapElems pos r
 
@@ -939,8 +945,7 @@ def compileDestructure (pos : Pos) (keyword op : Nat) (numLHS : Nat) (tempIdx : 
     if op == tDefine && found == numLHS then cerr pos "no new variable on the left side"
     else do
       emit_ pos OpGetLocal [tempIdx]
-      let i ← addConstant (.int (BitVec.ofNat 64 k))
-      emit_ pos OpConstant [i]
+      emitConstant pos (.int (BitVec.ofNat 64 k))
       emit_ pos OpGetIndex [1]
       compileDefineAssign pos e keyword op (keyword != tConst)
       compileDestructure pos keyword op numLHS tempIdx rest (k + 1) found
@@ -980,8 +985,7 @@ def compileStmt : Stmt → CM Unit
   | .incdec pos tok tokPos e => do
     -- compileAssignStmt(node, [e], [IntLit 1 @tokPos], Var, op) with op a compound assignment
     compileExpr e
-    let i ← addConstant (.int 1#64)
-    emit_ tokPos OpConstant [i]
+    emitConstant tokPos (.int 1#64)
     (match compoundOp (if tok == tDec then tSubAssign else tAddAssign) with
      | some t => emit_ pos OpBinaryOp [t]
      | none => pure ())
